@@ -34,8 +34,8 @@ ID = "C01"
 LEVEL = "exploration"
 HANG_IS_VIOLATION = True
 TIERS = {
-    "quick": {"runs": 2500, "wall": 70, "run_timeout": 120, "shrink_s": 40, "p_pooled": 0.2},
-    "thorough": {"runs": 80000, "wall": 1100, "run_timeout": 240, "shrink_s": 120, "p_pooled": 0.25},
+    "quick": {"runs": 2500, "wall": 70, "run_timeout": 240, "shrink_s": 40, "p_pooled": 0.2},
+    "thorough": {"runs": 80000, "wall": 1100, "run_timeout": 400, "shrink_s": 120, "p_pooled": 0.25},
 }
 RULE = ("case = seeded continuum (2..5 annotators, 0..30 units per annotator, <= 40000 candidate unitary alignments; families: "
         "jitter, random, grid(ties), identical, nested, staircase, sparse; modifiers: empty annotator, same segment with two labels, "
